@@ -31,6 +31,19 @@ def _execute_with_begin(history, emit):
     W.execute(history, emit)
 
 
+_FP_POOL = {}
+
+
+def _intern_fp(fp):
+    """Pristine 'state before the operation' fingerprints are identical for all documents of one configuration: keep one
+    object per distinct value (a process with fewer small objects forks markedly faster)."""
+    key = core.sha(fp)
+    got = _FP_POOL.get(key)
+    if got is None:
+        got = _FP_POOL[key] = fp
+    return got
+
+
 class Judge:
     """Lives in a process that never executes mistletoe itself: every evaluation is a fork."""
 
@@ -53,7 +66,7 @@ class Judge:
         if status != 'ok':
             raise core.HarnessError('oracle evaluation failed (%s) for %s' % (status, json.dumps(oh)[:400]))
         rec0 = W.oracle_pick(rec['kind'], frames)
-        got = (rec0['outcome'], rec0['pre'])
+        got = (rec0['outcome'], _intern_fp(rec0['pre']))
         self.cache[key] = got
         return got
 
@@ -243,7 +256,9 @@ def warm_cache(tier):
                     keys.append([{'k': 'MD', 'R': rid, 'opts': {}, 'doc': D.PROBES[n]}])
     for n in names:
         keys.append([{'k': 'BARE', 'doc': D.PROBES[n]}])
-    for doc in _spec_docs() + [D.ATOM_PROBES[n] for n in sorted(D.ATOM_PROBES)]:
+    # the specification corpus is warmed only where each of its outcomes is used many times (thorough: every stride);
+    # in the quick tier each (renderer, mode, spec document) outcome is needed by exactly one history
+    for doc in (_spec_docs() if tier == 'thorough' else []) + [D.ATOM_PROBES[n] for n in sorted(D.ATOM_PROBES)]:
         for rid in W.RENDERER_IDS:
             keys.append([{'k': 'CTX', 'R': rid, 'opts': {}, 'exit': 'normal', 'steps': [{'k': 'RENDER', 'doc': doc}]}])
             keys.append([{'k': 'MD', 'R': rid, 'opts': {}, 'doc': doc}])
@@ -261,10 +276,12 @@ def warm_cache(tier):
             out[core.sha(oh)] = (rec0['outcome'], rec0['pre'])
         emit(('done', out))
 
+
     def on_frame(i, frame):
         if frame[0] == 'done':
-            cache.update(frame[1])
-    core.run_pool(core.n_workers(), fn, on_frame, 300)
+            for k, (outcome, pre) in frame[1].items():
+                cache[k] = (outcome, _intern_fp(pre))
+    core.run_pool(core.n_workers(), fn, on_frame, 600)
     return cache
 
 
